@@ -312,9 +312,11 @@ class JnpHistogramddPlugin(PrimitiveLeafPlugin):
         y_edges_dtype: np.dtype[Any] = np.dtype(
             getattr(y_edges_var.aval, "dtype", y_edges_out_dtype)
         )
-        compare_dtype: np.dtype[Any] = np.promote_types(
-            sample_dtype,
-            np.promote_types(x_edges_out_dtype, y_edges_out_dtype),
+        compare_dtype: np.dtype[Any] = np.dtype(
+            jnp.promote_types(
+                sample_dtype,
+                jnp.promote_types(x_edges_out_dtype, y_edges_out_dtype),
+            )
         )
 
         sample_val = ctx.get_value_for_var(
